@@ -84,3 +84,8 @@ pub mod sched {
 pub mod bitwalk {
     include!(concat!(env!("BROOD_VERIF_DIR"), "/harness/bitwalk.rs"));
 }
+
+#[cfg(kani)]
+pub mod canon {
+    include!(concat!(env!("BROOD_VERIF_DIR"), "/harness/canon.rs"));
+}
